@@ -60,7 +60,15 @@ def showAnchor (a : Anchor) : String := s!"{a.1}.{a.2}"
   ",".intercalate (es.map fun e =>
     s!"{e.1 / 65536}/{e.1 % 65536}:{showVR e.2.1}|{showVR e.2.2}")
 
+def showSub51 (mc lc : List (Nat × Nat)) (marks : List (Nat × Anchor))
+    (ligs : List (List (List Anchor))) : String :=
+  let m := ",".intercalate (marks.map fun r => s!"{r.1}.{showAnchor r.2}")
+  let l := "/".intercalate (ligs.map fun lig =>
+    "|".intercalate (lig.map fun row => ",".intercalate (row.map showAnchor)))
+  s!"5.1 mcov={showCov mc};lcov={showCov lc};marks={m};n={ligs.length};lig={l}"
+
 def showSub : Sub → String
+  | .s51 mc lc marks ligs => showSub51 mc lc marks ligs
   | .s11 cov vr => s!"1.1 cov={showCov cov};vr={showVR vr}"
   | .s12 cov vrs => s!"1.2 cov={showCov cov};vrs={",".intercalate (vrs.map showVR)}"
   | .s21 cov sets => "2.1 " ++ merge21 cov sets.toArray
